@@ -230,5 +230,6 @@ func mergeAuthorizerBurnEvents() *eventsMergerImpl[state.Burn] {
 }
 
 func mergeAddBridgeMintEvents() *eventsMergerImpl[BridgeMint] {
-	return newEventsMerger[BridgeMint](TagAddBridgeMint, withUniqueEventOverwrite())
+	// every mint counts toward its signers' totals: all are kept
+	return newEventsMerger[BridgeMint](TagAddBridgeMint)
 }
